@@ -488,7 +488,10 @@ class _Decoder(object):
             if fe.link_count != want:
                 mism.append((self.pstart + block, fe.link_count, want))
                 if LINK_COUNT_STRICT:
-                    self.problem('fe:link-count', 'FE at block %d (%s) has link count %d, expected %d' % (
+                    # 'fe:link-count' is the one mechanism "a file with several names records 1";
+                    # directories and any other value get keys of their own
+                    key = 'fe:link-count' if (fe.kind != 'dir' and fe.link_count == 1 and want > 1) else 'fe:link-count:%s' % ('dir' if fe.kind == 'dir' else 'other')
+                    self.problem(key, 'FE at block %d (%s) has link count %d, expected %d' % (
                         block, fe.kind, fe.link_count, want))
 
     def fid_block(self, extents, off):
